@@ -1388,6 +1388,12 @@ func (an *shapeAn) lenLower(t *Sym, fs *factSet) int64 {
 			}
 		}
 	}
+	// the characters of a text: at least one when the text is not empty (and never more than its bytes)
+	if t.Op == "call" && t.Name == "runes" && len(t.Kids) == 1 {
+		if an.lenLower(t.Kids[0], fs) >= 1 && lo < 1 {
+			lo = 1
+		}
+	}
 	switch t.Op {
 	case "const":
 		if s, ok := symStr(t); ok {
